@@ -270,9 +270,10 @@ func TestPeerFaults(t *testing.T) {
 		}
 		b := mine[rapid.IntRange(0, len(mine)-1).Draw(rt, "behaviour")]
 		n := rapid.IntRange(1, 4).Draw(rt, "pending")
-		timeoutMs := rapid.SampledFrom([]int{0, 0, 120, 300}).Draw(rt, "timeoutMs")
+		// 30 s stands for "a timeout that is far away": the call must be ended by cancel or abort, not wait for it
+		timeoutMs := rapid.SampledFrom([]int{0, 0, 120, 300, 30000}).Draw(rt, "timeoutMs")
 		terminators := []string{"cancel", "abort"}
-		if timeoutMs > 0 {
+		if timeoutMs > 0 && timeoutMs < 30000 {
 			terminators = append(terminators, "timeout", "timeout")
 		}
 		term := rapid.SampledFrom(terminators).Draw(rt, "terminator")
@@ -510,9 +511,9 @@ func TestRealServer(t *testing.T) {
 	ev.Check(t, "real-server", ev.N(600, 24000), func(rt *rapid.T) {
 		ep := rapid.SampledFrom(endpoints).Draw(rt, "endpoint")
 		n := rapid.IntRange(1, 6).Draw(rt, "pending")
-		timeoutMs := rapid.SampledFrom([]int{0, 0, 120, 300}).Draw(rt, "timeoutMs")
+		timeoutMs := rapid.SampledFrom([]int{0, 0, 120, 300, 30000}).Draw(rt, "timeoutMs")
 		terminators := []string{"cancel", "abort", "cancel-one"}
-		if timeoutMs > 0 {
+		if timeoutMs > 0 && timeoutMs < 30000 {
 			terminators = append(terminators, "timeout", "timeout")
 		}
 		term := rapid.SampledFrom(terminators).Draw(rt, "terminator")
@@ -579,7 +580,7 @@ func TestRealServer(t *testing.T) {
 			case o := <-k.done:
 				survivor := term == "cancel-one" && i > 0
 				switch {
-				case survivor && timeoutMs == 0:
+				case survivor && (timeoutMs == 0 || timeoutMs >= 30000):
 					if (o.err != nil || o.s != "g:"+k.tag) && problem == "" {
 						problem = fmt.Sprintf("call %d, not cancelled and answered, returned %q, %v", i, o.s, o.err)
 					}
@@ -1095,9 +1096,10 @@ func TestHTTPPeerFaults(t *testing.T) {
 	ev.Check(t, "http-peer-faults", ev.N(300, 8000), func(rt *rapid.T) {
 		b := hbs[rapid.IntRange(0, len(hbs)-1).Draw(rt, "behaviour")]
 		n := rapid.IntRange(1, 3).Draw(rt, "pending")
-		timeoutMs := rapid.SampledFrom([]int{0, 0, 120, 300}).Draw(rt, "timeoutMs")
+		// 30 s stands for "a timeout that is far away": the call must be ended by cancel or abort, not wait for it
+		timeoutMs := rapid.SampledFrom([]int{0, 0, 120, 300, 30000}).Draw(rt, "timeoutMs")
 		terminators := []string{"cancel", "abort"}
-		if timeoutMs > 0 {
+		if timeoutMs > 0 && timeoutMs < 30000 {
 			terminators = append(terminators, "timeout", "timeout")
 		}
 		term := rapid.SampledFrom(terminators).Draw(rt, "terminator")
